@@ -240,6 +240,22 @@ pub fn check_baseline_ratchet(results: &[CheckResult], baseline: &Baseline) -> R
 /// Remove stale entries from baseline and save (for `--ratchet=auto` mode).
 ///
 /// Returns `SaveOutcome::Saved` on success, `SaveOutcome::Skipped` if lock times out.
+/// Ratchet check restricted to the paths this run actually evaluated.
+///
+/// A baseline entry whose path was not looked at in this run (explicit `--files` list,
+/// `--diff` / `--staged`, a fail-fast short-circuit, a sub-path scan root) says nothing about
+/// whether the violation was resolved, so it must be neither reported nor removed.
+pub fn check_baseline_ratchet_evaluated(
+    results: &[CheckResult],
+    baseline: &Baseline,
+    evaluated: &HashSet<String>,
+) -> RatchetResult {
+    let mut result = check_baseline_ratchet(results, baseline);
+    result.stale_paths.retain(|p| evaluated.contains(p));
+    result.stale_entries = result.stale_paths.len();
+    result
+}
+
 pub fn tighten_baseline(
     baseline: &mut Baseline,
     stale_paths: &[String],
@@ -259,6 +275,7 @@ pub fn handle_baseline_ratchet(
     config: &Config,
     results: &[CheckResult],
     baseline: &mut Option<Baseline>,
+    evaluated: &HashSet<String>,
     project_root: &Path,
     quiet: bool,
 ) -> crate::Result<bool> {
@@ -287,7 +304,7 @@ pub fn handle_baseline_ratchet(
     };
 
     // Check for stale entries
-    let ratchet_result = check_baseline_ratchet(results, current_baseline);
+    let ratchet_result = check_baseline_ratchet_evaluated(results, current_baseline, evaluated);
 
     if !ratchet_result.is_outdated() {
         return Ok(false);
